@@ -137,7 +137,7 @@ func c34body(c c34cfg) func(x *vsched.Exec) {
 			}
 			lockers = append(lockers, lk)
 		}
-		var holders []*c34hold               // one per successful acquisition
+		var holders []*c34hold                // one per successful acquisition
 		results := make([]string, len(c.thr)) // "" until the thread has finished
 		inWith := make([]bool, len(c.thr))    // the thread is inside WithContext
 		var vals []*c34val
@@ -223,23 +223,40 @@ func c34body(c c34cfg) func(x *vsched.Exec) {
 			refresh()
 		}
 
+		// before every command: remember the lock value the calling thread uses (ARGV[1] of every lock script), then
+		// let the environment event of the program happen
+		lastVal := make([]string, len(c.thr))
+		var before func(argv []string) error
+		for _, cl := range clients {
+			cl.Fail = func(argv []string) error {
+				if t := vsched.Cur(); t != nil && len(argv) >= 5 && (argv[0] == "EVALSHA" || argv[0] == "EVAL") {
+					for ti := range c.thr {
+						if t.Name == "t"+strconv.Itoa(ti) {
+							lastVal[ti] = argv[4]
+						}
+					}
+				}
+				if before != nil {
+					return before(argv)
+				}
+				return nil
+			}
+		}
 		if c.event == "neterr" {
-			for _, cl := range clients {
-				cl.Fail = func(argv []string) error {
-					if evDone || len(argv) < 5 || (argv[0] != "EVALSHA" && argv[0] != "EVAL") || vsched.Cur() == nil {
-						return nil
-					}
-					v := findVal(argv[4])
-					if v == nil || v.owner == nil || v.owner.released || !c34live(v.owner.ctx) {
-						return nil
-					}
-					if vsched.Choose(2, vsched.KDev, "neterr") == 1 {
-						evDone = true
-						vsched.Logf("transient transport error on %s for thread %d's value at %v", argv[0], v.owner.thr, x.Elapsed())
-						return errC34net
-					}
+			before = func(argv []string) error {
+				if evDone || len(argv) < 5 || (argv[0] != "EVALSHA" && argv[0] != "EVAL") || vsched.Cur() == nil {
 					return nil
 				}
+				v := findVal(argv[4])
+				if v == nil || v.owner == nil || v.owner.released || !c34live(v.owner.ctx) {
+					return nil
+				}
+				if vsched.Choose(2, vsched.KDev, "neterr") == 1 {
+					evDone = true
+					vsched.Logf("transient transport error on %s for thread %d's value at %v", argv[0], v.owner.thr, x.Elapsed())
+					return errC34net
+				}
+				return nil
 			}
 		}
 
@@ -313,13 +330,11 @@ func c34body(c c34cfg) func(x *vsched.Exec) {
 		if c.event == "del" || c.event == "del1" {
 			// the other application's DEL is offered before every script a locker sends (i.e. between two commands, so
 			// that its invalidation is on the wire in the order a real server would produce)
-			for _, cl := range clients {
-				cl.Fail = func(argv []string) error {
-					if !evDone && (argv[0] == "EVALSHA" || argv[0] == "EVAL") && vsched.Cur() != nil && vsched.Choose(2, vsched.KDev, "extdel") == 1 {
-						extDel()
-					}
-					return nil
+			before = func(argv []string) error {
+				if !evDone && (argv[0] == "EVALSHA" || argv[0] == "EVAL") && vsched.Cur() != nil && vsched.Choose(2, vsched.KDev, "extdel") == 1 {
+					extDel()
 				}
+				return nil
 			}
 		}
 
@@ -385,14 +400,9 @@ func c34body(c c34cfg) func(x *vsched.Exec) {
 						}
 						break
 					}
-					// identify the value of this acquisition: the one of this locker that got a majority and has no owner yet
-					for _, v := range vals {
-						if v.sess == t.locker && v.owner == nil && v.acq >= int(c.majority) {
-							if h.v != nil {
-								x.Fail("harness: ambiguous lock value", "thread %d", ti)
-							}
-							h.v = v
-						}
+					// the value of this acquisition is the one the thread used in its own acquire scripts
+					if v := findVal(lastVal[ti]); v != nil && v.sess == t.locker && v.owner == nil && v.acq >= int(c.majority) {
+						h.v = v
 					}
 					if h.v == nil {
 						x.Fail("lock reported as acquired without a majority of keys set", "thread %d locker %d: no value of this locker was set on >= %d keys", ti, t.locker, c.majority)
